@@ -151,7 +151,7 @@ CHECKS = {
                 "handshake: empty / non-EBB / banner / SerialException per probe, open failure, no board; fresh and re-used object) and "
                 "the five legacy gated helpers (V answered by a version, OK, Err, nothing, or a banner without version) are executed "
                 "symbolically; results, transmitted commands and error state are proved equivalent to numeric component-wise order "
-                "against each threshold, so a lexicographic comparison or a gate that lets an unknown version through is a counterexample. Gated helpers are also run after an up-to-date board was used on the same device path; version components have up to 3 digits.",
+                "against each threshold, so a lexicographic comparison or a gate that lets an unknown version through is a counterexample. Gated helpers are also run after an up-to-date board was used on the same device path; version components have up to 3 digits. An object whose connect() was refused for old firmware is asked to connect again and is then sent a command: the retry must not be True-without-error and nothing beyond the version probes may be written.",
         "note": "packaging.version.parse replaced by a reference parser yielding integer terms (validated against packaging on ~1400 pairs "
                 "each run); three components of 1-2 symbolic digits; serial.Serial/comports stubbed",
         "technique": "symbolic execution of the Python source on symbolic strings + SMT (linear integer arithmetic) obligations per path, counterexample replay",
